@@ -603,6 +603,12 @@ def sites_of(cx, fn, kprefix=""):
             return block(n)
         if k == "NullStmt":
             return []
+        if k == "LabelStmt":
+            # the label itself is not executable (a goto target); the statement it labels is translated in place
+            r = ["(SOther %s)" % coq_s("label " + str(n.get("name", "")))]
+            for c in inner:
+                r += visit(c)
+            return r
         if k == "IfStmt" and inner:
             kk = key("if")
             c = expr(cx, inner[0])
@@ -744,6 +750,7 @@ def sites_of(cx, fn, kprefix=""):
                 return ["(SOther \"statement before the first case\")"]
         # stacked labels whose own statement is empty were merged by clang's nesting; a group must end in break / return
         cases, default = [], []
+        falls = False
         for gi, (labels, is_default, stmts) in enumerate(groups):
             body = []
             for st in stmts:
@@ -751,14 +758,17 @@ def sites_of(cx, fn, kprefix=""):
             last = stmts[-1] if stmts else {}
             while last.get("kind") == "CompoundStmt" and last.get("inner"):
                 last = last["inner"][-1]
-            if last.get("kind") not in ("BreakStmt", "ReturnStmt") and gi != len(groups) - 1:
-                return ["(SOther \"switch with fall-through\")"]
+            # a group ending in goto leaves the switch as well (its body then ends in the non-executable SOther "GotoStmt")
+            if last.get("kind") not in ("BreakStmt", "ReturnStmt", "GotoStmt") and gi != len(groups) - 1:
+                falls = True          # keep visiting: the expressions of the later groups are still recorded as sites
             if is_default:
                 default = body
                 if labels:
                     cases.append((labels, body))
             else:
                 cases.append((labels, body))
+        if falls:
+            return ["(SOther \"switch with fall-through\")"]
         cs = lst(["(%s, %s)" % (lst([zl(v) for v in labels]), lst(body)) for labels, body in cases])
         return ["(SSwitch %s %s %s %s)" % (coq_s(kk), scrut, cs, lst(default))]
 
